@@ -39,6 +39,9 @@ MANIFEST = {"C07": dict(
 HARNESS = ["zz_verif_lcm_test.go"]
 OBS_RE = re.compile(r'<<(\d+), "(\w+)">>')
 SIX = [1000, 4000, 4096, 5000, 10000, 16384]
+ALL_IDS_UP_TO = 4096       # thorough: every LCM shard id of a big pair when the LCM is at most this (DESIGN: 2*10^5, see C07.md)
+SAMPLES_THOROUGH = 1000    # thorough: sampled ids otherwise (DESIGN: 10^4)
+CHUNK = 120000             # records per LcmMapObs run
 EXTREME = [(16384, 14565), (14565, 16384)]     # LCM = 238632960: the first LCM shard ids the stream observer cannot count
 
 
@@ -70,10 +73,10 @@ def pair_list(tier):
             continue
         seen.add((l, r))
         lcm = l * r // gcd(l, r)
-        if thorough and lcm <= 1024:
+        if thorough and lcm <= ALL_IDS_UP_TO:
             pairs.append(dict(l=l, r=r, mode="all", n=0, grpc=8))
         else:
-            pairs.append(dict(l=l, r=r, mode="sample", n=400 if thorough else 24, grpc=8 if thorough else 3))
+            pairs.append(dict(l=l, r=r, mode="sample", n=SAMPLES_THOROUGH if thorough else 24, grpc=8 if thorough else 3))
     for (l, r) in EXTREME:
         pairs.append(dict(l=l, r=r, mode="boundary", n=0, grpc=0))
     return pairs
@@ -158,13 +161,18 @@ def run(c, a):
     proof = tlaps(c) if thorough else {"attempted": False, "reason": "thorough tier only"}
     # ---- 2. binding
     pairs = pair_list(c.tier)
+    if a.replay:
+        rec = json.load(open(a.replay))["record"]
+        pairs = [dict(l=rec["l"], r=rec["r"], mode="ids", ids=[rec.get("s", 1)], n=0, grpc=1 if rec.get("path") == "grpc" else 0)]
     binpath = c.go_test_build("proxy", HARNESS, name="lcm")
     # cost-balanced shards: pairs with many ids first, round robin
     def cost(p):
         lcm = p["l"] * p["r"] // gcd(p["l"], p["r"])
         return 2 * (lcm if p["mode"] == "all" else p["n"] + 8) + 30
+    if a.replay:
+        cost = lambda p: 1     # noqa
     order = sorted(range(len(pairs)), key=lambda i: -cost(pairs[i]))
-    nshard = min(NCPU, 12)
+    nshard = max(1, min(NCPU, 12, len(pairs)))
     files = []
     shard_pairs = [[] for _ in range(nshard)]
     for k, i in enumerate(order):
@@ -181,7 +189,12 @@ def run(c, a):
     for rc, out, outp in res:
         if rc != 0 or not os.path.exists(outp):
             raise Broken("harness shard failed rc=%s: %s" % (rc, out[-1500:]))
-        chunks.append(open(outp).read())
+        lines = open(outp).read().split("\n")
+        if lines and lines[-1] == "":
+            lines.pop()
+        for b in range(0, max(1, len(lines)), CHUNK):
+            chunks.append("\n".join(lines[b:b + CHUNK]) + "\n")
+        os.remove(outp)
     # ---- 3. TLC judges every record (one TLC run per shard, in parallel)
     results = [None] * len(chunks)
 
@@ -189,6 +202,7 @@ def run(c, a):
         try:
             results[k] = c.tlc("LcmMap", "LcmMapObs", "obs.cfg", workers=1, timeout=1500, files={"trace.ndjson": chunks[k]},
                                name="obs-%d" % k, heap="3g")
+            os.remove(os.path.join(c.scratch, "tlc-obs-%d" % k, "trace.ndjson"))
         except Exception as ex:   # noqa
             results[k] = ex
     par = 6
@@ -254,7 +268,7 @@ def run(c, a):
         "rule": "one record per (l, r, direction, LCM shard id): all ids for l,r<=16%s, boundary ids {1,L,c,c+1,L-c+1} plus "
                 "seeded samples (half of them owners of random workflow ids) for powers of two and mixed composites up to 16384; "
                 "non-trivial = distinct (l,r,dir,s) with s > own count of the serving cluster (the remap is not the identity) "
-                "that produced a result" % (" and every pair with LCM<=1024" if thorough else ""),
+                "that produced a result" % (" and every pair with LCM<=%d" % ALL_IDS_UP_TO if thorough else ""),
         "exhaustive": False,
     })
     samples = sample_recs or [json.loads(chunks[0].split("\n")[2])]
